@@ -10,7 +10,7 @@ EXPLANATION = ("Coroutine-witness analysis: rustc's coroutine layout gives, for 
                "because the losing branch is dropped each iteration and the bytes it consumed are lost. Every select site, "
                "every branch, and every await of a progress-carrying future in both crates is enumerated with its cancellation "
                "context; the EOF classification (ImmediateFin iff nothing read) is checked as a decision table."
-               ' Also (C05-R6/R7): buffered readers commit the child reader only when a frame was returned; the adapter that feeds control-plane bytes to the parsers reports exactly the bytes quinn filled.')
+               ' Also (C05-R6/R7): buffered readers commit the child reader only when a frame was returned; the adapter that feeds control-plane bytes to the parsers reports exactly the bytes quinn filled. C05-R8: the worker loop that polls the control, request and session streams suspends only in its select!; a branch handler that waits (for instance for room in the datagram or stream queue of the application) would stop every control-plane stream from being read while datagrams / streams arrive between the pieces.')
 NOT_DECIDED = ["the outcome under one concrete packetisation (needs the running driver)", "quinn's own reassembly"]
 TRUSTED = ["rustc coroutine layout (mir state transform)", "reviewed leaf-future table in engine/corowit.py", "tokio::select! drops losing branch futures"]
 
@@ -121,6 +121,9 @@ def run(ctx):
 
     ctx.rule("C05-R7", "the adapter that feeds control-plane bytes to the parsers reports exactly what arrived")
     shared.proto_io_adapters(ctx, "C05-R7")
+
+    ctx.rule("C05-R8", "events between the pieces never stop the control-plane streams from being polled: the worker loop suspends only in its select!, branch handlers never wait (e.g. for room in an application queue)")
+    shared.worker_loop_never_parks(ctx, "C05-R8", idx)
 
     ctx.rule("C05-R2", "inventory of every await of a progress-carrying future with its cancellation context")
     spawned = {cor for _, _, cor in idx.spawn_sites() if cor}
